@@ -3,10 +3,11 @@
 // obstacles, a state space that counts (and, in trace mode, logs) every allocState/freeState, and a termination
 // condition that turns true at evaluation number k+1 of the current solve call and stays true (no wall clock).
 //
-// header:  proto planner=<name> seed=<n> dim=<d> trace=<0|1> boxes <pdim> <k> (<lo>*pdim <hi>*pdim)*k
+// header:  proto planner=<name> seed=<n> dim=<d> trace=<0|1> [limit=<s>] boxes <pdim> <k> (<lo>*pdim <hi>*pdim)*k
 // ops:     setpd <sx>*d <gx>*d <thr>      new ProblemDefinition (the previous one is dropped), setProblemDefinition
 //          setsg <sx>*d <gx>*d <thr>      same ProblemDefinition object: setStartAndGoalStates + clearSolutionPaths
 //          mutpd <sx>*d <gx>*d <thr>      as setsg, then planner->setProblemDefinition(the same pointer)
+//          setpdg <sx>*d <n> (<gx>*d)*n <thr>   new ProblemDefinition with a GoalStates goal of n states
 //          addstart <x>*d                 pdef->addStartState (the one change of a pdef a resumed solve accounts for)
 //          solve <k>                      solve(ptc) with ptc false for the first k evaluations
 //          clear | clearQuery | getpd | clearsol
@@ -36,8 +37,11 @@
 #include <ompl/control/planners/kpiece/KPIECE1.h>
 #include <ompl/control/planners/pdst/PDST.h>
 #include <ompl/util/RandomNumbers.h>
+#include <chrono>
 #include <map>
 #include <set>
+#include <thread>
+#include <unistd.h>
 #include <unordered_map>
 
 namespace ob = ompl::base;
@@ -308,7 +312,16 @@ struct EvalState
     std::atomic<unsigned long> evals{0};
     unsigned long fireAt = 0;
     std::atomic<long> firstSol{-1}, firstExact{-1};
+    std::atomic<long long> firedAtMs{-1};  // steady-clock ms of the first evaluation that returned true
 };
+
+static long long nowMs()
+{
+    return std::chrono::duration_cast<std::chrono::milliseconds>(std::chrono::steady_clock::now().time_since_epoch()).count();
+}
+
+// hard wall limit (seconds) for solve() to return AFTER the termination condition was first evaluated true
+static double g_returnLimit = 30.0;
 
 struct Session
 {
@@ -324,6 +337,7 @@ struct Session
     ob::ProblemDefinitionPtr pdef;
     std::vector<std::vector<double>> curStarts, curGoals, retired;
     bool setupDone = false;
+    long extraGoalStates = 0;  // a GoalStates goal holds more than one state
 
     std::vector<double> reals(const ob::State *s) const
     {
@@ -340,7 +354,7 @@ struct Session
         {
             n += pdef->getStartStateCount();
             if (pdef->getGoal())
-                n += 1;
+                n += 1 + extraGoalStates;
             std::set<const ob::Path *> seen;
             for (const auto &s : pdef->getSolutions())
             {
@@ -412,6 +426,7 @@ struct Session
         }
         pdef->clearStartStates();
         pdef->addStartState(st);
+        extraGoalStates = 0;
         if (tracker->trace)
         {
             auto goal = std::make_shared<TraceGoal>(si, tracker);
@@ -467,6 +482,11 @@ static void doSolve(Session &S, unsigned long k)
             es->firstExact.compare_exchange_strong(exp, (long)n);
         }
         bool r = n > es->fireAt;
+        if (r && es->firedAtMs.load() < 0)
+        {
+            long long exp = -1;
+            es->firedAtMs.compare_exchange_strong(exp, nowMs());
+        }
         if (tr->trace)
         {
             std::lock_guard<std::mutex> g(tr->m);
@@ -487,7 +507,34 @@ static void doSolve(Session &S, unsigned long k)
             S.planner->setup();
             S.setupDone = true;
         }
-        st = S.planner->solve(ptc);
+        // watchdog: the condition has been evaluated true and solve() still has not returned after the wall limit
+        std::atomic<bool> done{false};
+        std::thread dog([&done, es, k]() {
+            while (!done.load())
+            {
+                std::this_thread::sleep_for(std::chrono::milliseconds(50));
+                long long f = es->firedAtMs.load();
+                if (f >= 0 && !done.load() && (nowMs() - f) > (long long)(g_returnLimit * 1000.0))
+                {
+                    std::cout << "solve NORETURN k=" << k << " evals=" << es->evals.load() << " limit_s=" << g_returnLimit
+                              << " (termination condition evaluated true, solve() did not return within the limit)" << std::endl;
+                    std::cout.flush();
+                    _exit(97);
+                }
+            }
+        });
+        try
+        {
+            st = S.planner->solve(ptc);
+        }
+        catch (...)
+        {
+            done = true;
+            dog.join();
+            throw;
+        }
+        done = true;
+        dog.join();
     }
     catch (std::exception &e)
     {
@@ -614,6 +661,13 @@ int main()
             throw vp::ParseError("seed/dim");
         S.dim = (unsigned)*dim;
         S.tracker->trace = kv["trace"] == "1";
+        if (kv.count("limit"))
+        {
+            auto l = vp::parseNat(kv["limit"]);
+            if (!l || *l < 1)
+                throw vp::ParseError("limit");
+            g_returnLimit = (double)*l;
+        }
         env.parse(t, i);
         if (i != t.size() || env.pdim > S.dim)
             throw vp::ParseError("trailing");
@@ -752,6 +806,51 @@ int main()
                 }
                 std::cout << op << " ok svalid=" << startValid(s) << " gvalid=" << startValid(g)
                           << " plive=" << (S.counter->live.load() - S.accounted()) << S.evs() << std::endl;
+            }
+            else if (op == "setpdg" && t.size() >= 3 + S.dim)
+            {
+                // new ProblemDefinition with a GoalStates goal of n states
+                size_t i = 1;
+                auto s0 = readPoint(t, i);
+                unsigned n = (unsigned)vp::needN(t, i);
+                if (n < 1 || t.size() != 3 + S.dim + n * S.dim)
+                    throw vp::ParseError("setpdg");
+                std::vector<std::vector<double>> gs;
+                for (unsigned j = 0; j < n; ++j)
+                    gs.push_back(readPoint(t, i));
+                double thr = vp::needF(t, i);
+                S.retireCurrent();
+                auto np = std::make_shared<ob::ProblemDefinition>(S.si);
+                ob::ProblemDefinitionPtr oldp = S.pdef;
+                S.pdef = np;
+                ob::ScopedState<> st(S.space);
+                for (unsigned j = 0; j < S.dim; ++j)
+                    st[j] = s0[j];
+                S.pdef->addStartState(st);
+                auto goal = std::make_shared<ob::GoalStates>(S.si);
+                for (auto &g : gs)
+                {
+                    ob::ScopedState<> gl(S.space);
+                    for (unsigned j = 0; j < S.dim; ++j)
+                        gl[j] = g[j];
+                    goal->addState(gl);
+                    S.curGoals.push_back(g);
+                }
+                goal->setThreshold(thr);
+                S.pdef->setGoal(goal);
+                S.curStarts.push_back(s0);
+                S.extraGoalStates = (long)n - 1;
+                S.enter();
+                S.planner->setProblemDefinition(S.pdef);
+                if (!S.setupDone)
+                {
+                    S.planner->setup();
+                    S.setupDone = true;
+                }
+                S.leave();
+                oldp.reset();
+                std::cout << "setpdg ok svalid=" << startValid(s0) << " gvalid=1 plive=" << (S.counter->live.load() - S.accounted())
+                          << S.evs() << std::endl;
             }
             else if (op == "addstart" && t.size() == 1 + S.dim && S.pdef)
             {
